@@ -70,6 +70,8 @@ def judge(ctx, flat, obs, health, dm_log, what, spec, stats):
     for r in L.asan_reports(dm_log):
         fails.append(dict(defect="sanitizer_report", detail=r[:600]))
     for r in L.tsan_reports(dm_log):
+        if r["hook_only"]:
+            continue
         fails.append(dict(defect="tsan_report", detail=r["text"][:600], site=sorted(set(r["funcs"][:12]) | set(r["globals"]))))
     return fails
 
